@@ -85,7 +85,9 @@ def e2_functions():
 def base_rels(pairs=None):
     pairs = pairs or ((X, P), (X, L.num("0")), (P, L.num("1")), (L.bin_("+", X, P), T),
                       # float-typed literals on either side (printers may treat Float and Integer differently)
-                      (X, L.num("0.5")), (L.num("1.0"), P), (X, L.num("0.0")), (T, L.num("-0.5")), (L.bin_("*", X, L.num("2.0")), L.num("1e0")))
+                      (X, L.num("0.5")), (L.num("1.0"), P), (X, L.num("0.0")), (T, L.num("-0.5")), (L.bin_("*", X, L.num("2.0")), L.num("1e0")),
+                      # negative literals on either side (kept by the loader as unevaluated products), grid values so that equality is hit
+                      (X, L.num("-0.5")), (L.num("-0.5"), X), (X, L.num("-1")), (L.num("-2.0"), P), (X, L.neg(P)))
     return [L.rel(op, a, b) for op in L.RELS for a, b in pairs]
 
 
@@ -123,6 +125,11 @@ def e2_conditionals(max_operands=4):
     A, B = L.bin_("+", X, N2), L.bin_("*", P, N3)
     for c in e2_conditions(max_operands):
         out.append(L.cond(c, A, B))
+    # every base relation (and its negation) once more with the conditional nested inside a product and a sum: the printers treat a
+    # Conditional that is a whole right-hand side differently from one inside a larger expression
+    for r in base_rels():
+        out.append(L.bin_("*", N2, L.cond(r, A, B)))
+        out.append(L.bin_("+", L.cond(("not", r), A, B), L.num("1")))
     # nesting in each position, depth <= 2
     c1, c2, c3 = COND_B[0], COND_B[1], COND_B[2]
     vals = (X, P, L.num("7"), L.bin_("-", X, P))
@@ -143,6 +150,17 @@ def e2_conditionals(max_operands=4):
             L.cond(L.rel("Gt", X, L.num("0")), L.call("log", X), L.num("0")),
             L.cond(L.rel("Ge", X, L.num("0")), L.call("sqrt", X), L.call("sqrt", L.neg(X))),
             ]
+    # 0/1 indicators (and other two-valued conditionals) in every arithmetic position: sums and products of two indicators, indicator
+    # first / last in a longer sum, under unary minus, as argument, base and exponent
+    one, zero = L.num("1"), L.num("0")
+    inds = [L.cond(c, one, zero) for c in COND_B6] + [L.cond(COND_B6[0], zero, one), L.cond(COND_B6[1], L.num("1.0"), L.num("0.0")), L.cond(COND_B6[2], N2, zero)]
+    for i, a in enumerate(inds):
+        for b in inds:
+            out += [L.bin_("+", a, b), L.bin_("*", a, b), L.bin_("-", a, b)]
+        b = inds[(i + 1) % len(inds)]
+        out += [L.bin_("+", L.bin_("+", a, b), X), L.bin_("+", X, L.bin_("+", a, b)), L.bin_("+", L.bin_("+", a, X), b), L.neg(a), L.bin_("/", a, N2), L.bin_("/", N2, L.bin_("+", a, one)),
+                L.call("exp", a), L.call("sqrt", a), L.bin_("**", a, N2), L.bin_("**", N2, a), L.bin_("*", P, a), L.bin_("-", one, a), L.call("abs", L.neg(a)),
+                L.bin_("+", L.bin_("+", a, b), inds[(i + 2) % len(inds)])]
     # constant conditions (folded at build time by sympy)
     for op in L.RELS:
         out.append(L.cond(L.rel(op, L.num("1"), L.num("2")), X, P))
